@@ -1,20 +1,27 @@
 """C01 - Markovian SIR simulators sample the exact network SIR process.
-Deciding obligations (unbounded): the view/rate loop invariants of Gillespie_SIR for every reachable state of
-every graph, the draw-site obligations (Exp(total rate); branch probability recovery/total; actor through the
-_ListDict_ contracts), weighted and unweighted code paths, all ways of passing the initial condition.
-M (cited): Gillespie's direct method."""
+Gillespie_SIR: view/rate loop invariants for every reachable state of every graph + draw-site obligations
+(Exp(total rate); branch probability recovery/total; actor through the _ListDict_ contracts).
+fast_SIR: delegation-site obligations (delay rules draw Exp(tau*w_uv), Exp(gamma*w_u), infinite for rate 0;
+fast path = binomial thinning + truncated exponential), the event handlers' contracts, the queue rule.
+M (cited): Gillespie's direct method; thinning; Sellke/percolation representation + Dijkstra (C11)."""
 from ..common import Report, Ob
 from ..pyvc import verify as V
-from ..contracts import gillespie
+from ..contracts import gillespie, fast_sir
 from . import util
-
-UNITS = ['Gillespie_SIR']
 
 
 def reg():
     r = V.Registry()
     for c in gillespie.contracts():
         r.add(c)
+    return r
+
+
+def reg_fast():
+    r = V.Registry()
+    for c in fast_sir.contracts():
+        r.add(c)
+    r.lib_install.append(fast_sir.install)
     return r
 
 
@@ -25,20 +32,33 @@ def quick_filter(jobs, tier):
     return [j for j in jobs if j[0][1] in keep]
 
 
-def run(tier, seed, prop='C01', units=UNITS):
+ASSUME = [
+    'M (cited, not machine-checked): a loop that in every state waits Exp(L) with L the total rate and then performs event e with probability rate_e/L samples the continuous-time Markov chain with those rates (Gillespie direct method); final-size and state-at-time-T laws are functionals of that chain',
+    'edge / node weights are > 0 (the code comments "presume all weights positive"); tau, gamma >= 0; tmin < tmax',
+    'initial infected nodes are distinct, initially recovered nodes distinct and disjoint from them; rho is not combined with initial_recovereds',
+    'every value of the node sort is a node of G (population = |U|); G.neighbors enumerates each neighbour once',
+    'callee contracts of _ListDict_ are those verified under C16',
+    'termination not proved',
+]
+
+
+def run(tier, seed, prop='C01', units=('Gillespie_SIR',), fast=True):
     rep = Report(prop, tier, seed)
     jobs = quick_filter(util.jobs_for(reg, quals=set(units), tier=tier), tier)
+    if fast:
+        jobs += util.jobs_for(reg_fast, tier=tier)
     rep.add_unit_results(util.run_jobs(jobs))
-    rep.assumptions += [
-        'M (cited, not machine-checked): a loop that in every state waits Exp(L) with L the total rate and then performs event e with probability rate_e/L samples the continuous-time Markov chain with those rates (Gillespie direct method); final-size and state-at-time-T laws are functionals of that chain',
-        'edge / node weights are > 0 (the code comments "presume all weights positive"); tau, gamma >= 0; tmin < tmax',
-        'initial infected nodes are distinct, initially recovered nodes distinct and disjoint from them; rho is not combined with initial_recovereds',
-        'every value of the node sort is a node of G (population = |U|); G.neighbors enumerates each neighbour once',
-        'callee contracts of _ListDict_ are those verified under C16',
-        'termination not proved',
-    ]
-    rep.explanation = ('Loop invariants "infecteds = {u -> w_u | status u = I}", "IS_links = {(u,v) -> w_uv | adj, I, S}", '
+    rep.assumptions += ASSUME
+    if fast:
+        rep.assumptions += [
+            'M (cited): binomial number of recipients + uniform sample + truncated exponential delays == i.i.d. Exp(tau) delays kept iff below the infectious duration; Sellke/percolation representation of the SIR chain; Dijkstra (see C11)',
+            'queue rule: the loop `while Q: Q.pop_and_run()` is discharged by the lemma unit event_step_SIR (a step preserves the global invariant), glued by the verified pop_and_run contract and the event-binding obligations at every Q.add site',
+            'assumed heapq contract: heappush adds an item, heappop removes a minimal (time, counter) item; model = append-only list + set of popped indices',
+            'user / library delay rules return values >= 0; fast path requires tau > 0 and positive recovery rates',
+        ]
+    rep.explanation = ('Gillespie_SIR: loop invariants "infecteds = {u -> w_u | status u = I}", "IS_links = {(u,v) -> w_uv | adj, I, S}", '
                        '"rates = gamma*sum, tau*sum" are established by the initialisation loops and preserved by both branches of the '
                        'main loop (neighbour loops carry prefix forms), for graphs of any order; hence in EVERY reachable state the '
-                       'argument of expovariate is the total rate of the chain and the branch threshold is recovery/total.')
+                       'argument of expovariate is the total rate of the chain and the branch threshold is recovery/total. '
+                       'fast_SIR: what it hands to fast_nonMarkov_SIR is specified at the delegation site; handlers and the event loop by their contracts.')
     return rep, None
